@@ -63,8 +63,9 @@ def main(table_path: str, out_path: str) -> None:
                 viol.append({"clause": "C17_InputNotMutated", "signature": f"method={m} conc={cname}",
                              "detail": {}})
             Rf = Fraction(hi_f) - Fraction(lo_f)
-            for c, x_f, (r, r2) in zip(cs, xs[:, 0], res):
-                n_eval += 1
+
+            def laws(c, x_f, r, sig_extra=""):
+                """the clauses of C17 on one repaired coordinate r of input x_f"""
                 M = max(abs(x_f), abs(lo_f), abs(hi_f))
                 ulp = math.ulp(M)
                 nranges = abs(c["xk"] - lo) // (hi - lo) + 1
@@ -74,9 +75,8 @@ def main(table_path: str, out_path: str) -> None:
                 kind = ("inside" if inside else "outside", "face" if c["xk"] in (lo, hi) and c["xd"] == 0 else
                         ("ulp" if c["xd"] != 0 and c["xk"] in (lo, hi) else
                          ("multiple" if (c["xk"] - lo) % (hi - lo) == 0 else "general")))
-                distinct.add((m, lo, hi, c["xk"], c["xd"], cname))
                 sig = (f"method={m} box=({lo_f!r},{hi_f!r}) x={x_f!r} lattice=(lo={lo},hi={hi},x=<<{c['xk']},{c['xd']}>>)"
-                       f" conc={cname}")
+                       f" conc={cname}{sig_extra}")
                 det = {"result": repr(float(r)), "expected": repr(e_f), "kind": kind}
                 if not (lo_f <= r <= hi_f):
                     viol.append({"clause": "C17_LandsInBox", "signature": sig, "detail": det})
@@ -93,11 +93,34 @@ def main(table_path: str, out_path: str) -> None:
                     ok = abs(diff - nearest * Rf) <= Fraction(tol)
                 if not ok:
                     viol.append({"clause": "C17_MatchesDefinition", "signature": sig, "detail": det})
+                return kind, e_f, det, sig
+
+            for c, x_f, (r, r2) in zip(cs, xs[:, 0], res):
+                n_eval += 1
+                distinct.add((m, lo, hi, c["xk"], c["xd"], cname))
+                kind, e_f, det, sig = laws(c, x_f, r)
                 if not abs(r2 - y) <= 4 * math.ulp(max(abs(y), abs(lo2), abs(hi2))):
                     viol.append({"clause": "C17_OtherCoordinateUntouched", "signature": sig, "detail": det})
                 if len(samples) < 6 and kind[1] in ("face", "ulp", "multiple") and cname in ("decimal", "unit"):
                     samples.append({"case": c, "conc": cname, "x": repr(x_f), "result": repr(float(r)),
                                     "expected": repr(e_f)})
+                # the same real vector given in other legal forms: a single vector instead of a population, and - when
+                # its coordinate is integer-valued - as an integer or single-precision array ("for every real vector")
+                forms = [("vector", np.array([x_f], dtype=np.float64))]
+                if float(x_f).is_integer() and abs(x_f) < 2.0 ** 24:
+                    forms += [("int64", np.array([[int(x_f)]], dtype=np.int64)), ("int64-vector", np.array([int(x_f)], dtype=np.int64)),
+                              ("float32", np.array([[x_f]], dtype=np.float32))]
+                for fname, arr in forms:
+                    n_eval += 1
+                    try:
+                        rr = np.asarray(apply_bounds(arr, bounds[:1], m), dtype=np.float64).reshape(-1)
+                    except Exception as ex:  # noqa: BLE001
+                        viol.append({"clause": "C17_LandsInBox", "signature": sig + f" form={fname}", "detail": {"exception": repr(ex)[:200]}})
+                        continue
+                    if rr.shape != (1,):
+                        viol.append({"clause": "C17_LandsInBox", "signature": sig + f" form={fname}", "detail": {"shape": str(rr.shape)}})
+                        continue
+                    laws(c, x_f, float(rr[0]), f" form={fname}")
     json.dump({"evaluations": n_eval, "distinct": len(distinct), "lattice_cases": len(cases),
                "violations": viol, "samples": samples}, open(out_path, "w"))
 
